@@ -10,3 +10,4 @@ import AvoVerif.Props.C09Tables
 #print axioms Avo.Func.buildCFG_err_iff
 #print axioms Avo.Func.features_are_x86_classes
 #print axioms Avo.Func.rel_operand_opcodes
+#print axioms Avo.Func.buildCFG_succ_in_range
